@@ -76,9 +76,10 @@ func (CON) Generate(seed uint64, tier string) *core.Scenario {
 			b.Ops = append(b.Ops, ConOp{S: s, Kind: "pins", ID: r.Intn(4), N: r.Intn(4)})
 		case x < 12:
 			if r.Chance(1, 3) {
-				// a second foreign key (child.pc -> parent.code, a non-key column) declared on main
-				// after b1 branched off: the merge base knows neither the key nor its index
-				b.Ops = append(b.Ops, ConOp{S: s, Kind: "addfk"})
+				// a second foreign key (child.pc -> parent.code, a non-key column), a second unique key
+				// (n, m) or a second CHECK (m < 3) declared on main after b1 branched off: the merge base
+				// knows neither the constraint nor its index
+				b.Ops = append(b.Ops, ConOp{S: s, Kind: []string{"addfk", "adduq", "addck"}[r.Intn(3)]})
 			} else {
 				b.Ops = append(b.Ops, ConOp{S: s, Kind: "pupd", ID: r.Intn(4), N: r.Intn(4)})
 			}
@@ -166,8 +167,13 @@ type conViol struct {
 }
 
 // evalConstraints re-checks the declared constraints over full scans of both tables.
-// parent rows: id, v, code; child rows: id, pid, u, n, m, pc, a, b. fk2: child.pc -> parent.code is declared.
-func evalConstraints(parent, child [][]string, fk2 bool) []conViol {
+// conDecl: the constraints declared on main after b1 branched off (ALTER TABLE): fk2 child.pc ->
+// parent.code, uq2 UNIQUE (n, m), ck2 CHECK (m < 3).
+type conDecl struct{ fk2, uq2, ck2 bool }
+
+// parent rows: id, v, code; child rows: id, pid, u, n, m, pc, a, b.
+func evalConstraints(parent, child [][]string, d conDecl) []conViol {
+	fk2 := d.fk2
 	var out []conViol
 	pids := map[string]int{}
 	codes := map[string]bool{}
@@ -205,8 +211,12 @@ func evalConstraints(parent, child [][]string, fk2 bool) []conViol {
 		}
 		n, _ := strconv.Atoi(r[3])
 		m, _ := strconv.Atoi(r[4])
-		if n < m {
+		if n < m || (d.ck2 && m >= 3) {
 			out = append(out, conViol{"check constraint", r[0]})
+		}
+		if d.uq2 {
+			k := "nm:" + r[3] + "," + r[4]
+			us[k] = append(us[k], r[0])
 		}
 	}
 	for id, c := range ids {
@@ -222,6 +232,13 @@ func evalConstraints(parent, child [][]string, fk2 bool) []conViol {
 	}
 	sort.Slice(out, func(i, j int) bool { return out[i].Kind+out[i].ID < out[j].Kind+out[j].ID })
 	return out
+}
+
+func declIf(d conDecl, on bool) conDecl {
+	if on {
+		return d
+	}
+	return conDecl{}
 }
 
 func (CON) Execute(t *testing.T, sc *core.Scenario) *core.Result {
@@ -293,7 +310,7 @@ func (CON) Execute(t *testing.T, sc *core.Scenario) *core.Result {
 	}
 	sig := core.NewSig()
 	refusals, mergesWithViolations := 0, 0
-	fk2Main := false
+	var declMain conDecl
 	lit := func(p *int) string {
 		if p == nil {
 			return "NULL"
@@ -309,7 +326,7 @@ func (CON) Execute(t *testing.T, sc *core.Scenario) *core.Result {
 			return
 		}
 		res.Evaluations++
-		for _, v := range evalConstraints(p, c, fk2Main && reader != bs && suffix == "") {
+		for _, v := range evalConstraints(p, c, declIf(declMain, reader != bs && suffix == "")) {
 			res.Violate("committed-data-violates-constraint", "constraint="+v.Kind, step, "%s: committed tables violate %s (child/row %s)\nparent:\n%s\nchild (id|pid|u|n|m|pc|a|b):\n%s", where, v.Kind, v.ID, indent(rowsKey(p)), indent(rowsKey(c)))
 			break
 		}
@@ -323,12 +340,12 @@ func (CON) Execute(t *testing.T, sc *core.Scenario) *core.Result {
 		if op.Kind == "addfk" {
 			// schema changes commit implicitly and are kept out of open transactions: main only,
 			// through the merging session, once
-			if fk2Main {
+			if declMain.fk2 {
 				continue
 			}
 			if _, err := mg.Exec(ctx, "ALTER TABLE parent ADD INDEX ic (code)"); err == nil {
 				if _, err := mg.Exec(ctx, "ALTER TABLE child ADD CONSTRAINT fk2 FOREIGN KEY (pc) REFERENCES parent (code)"); err == nil {
-					fk2Main = true
+					declMain.fk2 = true
 					res.Fault("foreign-key-declared-after-branching")
 				} else {
 					res.Probe("addfk_refused")
@@ -336,6 +353,29 @@ func (CON) Execute(t *testing.T, sc *core.Scenario) *core.Result {
 				}
 			}
 			checkMain("after ALTER TABLE ... ADD FOREIGN KEY", step)
+			continue
+		}
+		if op.Kind == "adduq" || op.Kind == "addck" {
+			// a unique key / a CHECK declared over the rows that are there: the ALTER must be refused
+			// when they violate it, and from then on main's commits and merges have to honour it
+			if (op.Kind == "adduq" && declMain.uq2) || (op.Kind == "addck" && declMain.ck2) {
+				continue
+			}
+			q, what := "ALTER TABLE child ADD UNIQUE KEY unm (n, m)", "unique-key"
+			if op.Kind == "addck" {
+				q, what = "ALTER TABLE child ADD CONSTRAINT ck2 CHECK (m < 3)", "check"
+			}
+			if _, err := mg.Exec(ctx, q); err == nil {
+				if op.Kind == "adduq" {
+					declMain.uq2 = true
+				} else {
+					declMain.ck2 = true
+				}
+				res.Fault(what + "-declared-after-branching")
+			} else {
+				res.Probe(op.Kind + "_refused")
+			}
+			checkMain("after "+q, step)
 			continue
 		}
 		if op.S >= b.NSess {
@@ -494,7 +534,7 @@ func (CON) Execute(t *testing.T, sc *core.Scenario) *core.Result {
 						}
 						recorded[r[0]+"/"+r[1]] = true
 					}
-					found := evalConstraints(p, c, fk2Main)
+					found := evalConstraints(p, c, declMain)
 					if len(found) > 0 {
 						mergesWithViolations++
 						res.Fault("forced-merge-with-violations")
@@ -547,7 +587,7 @@ func (CON) Execute(t *testing.T, sc *core.Scenario) *core.Result {
 					res.Probe("crash_phase_commit_refused")
 				}
 				log := append([]simos.Event(nil), sos.Log()...)
-				fk2 := fk2Main
+				fk2 := declMain
 				w.Close()
 				simos.Uninstall()
 				cases := sqlCrashCases(log, start, end, "test", 8, int(sc.Seed%7), b.Only)
